@@ -21,6 +21,7 @@ UNMODELLED = ["RwLock, rayon and the memory model are trusted runtime: deadlock-
               "that a multi-threaded run is complete whenever the single-threaded one is depends on which relations are found "
               "(heuristic): explored by comparing with the known factorisation, not proved"]
 HYPOTHESES = ["InputOK: the relations handed to add by the work units satisfy the callers' contract of C11 (true congruences with consistent cofactor data)"]
+_baseline = {}
 _stats = {"runs": 0, "multi_thread_runs": 0, "adds": 0, "stores": 0, "max_threads_seen": 0}
 
 
@@ -38,12 +39,14 @@ def cases(tier, rng, extended=False):
                     fs = [gen.rand_prime(rng, bits // 3), gen.rand_prime(rng, bits // 3), gen.rand_prime(rng, bits - 2 * (bits // 3))]
                 n = fc.prod(fs)
                 tlist = rng.sample([1, 2, 3, 4, 8, 16], 2 if quick else 4)
+                toks = []
+                if alg in ("siqs", "mpqs", "qs") and rng.random() < 0.4:
+                    toks.append(f"dbl={rng.choice([0, 1])}")
+                if alg in ("siqs", "mpqs", "qs") and rng.random() < 0.3:
+                    toks.append(f"lf={rng.choice([10, 50, 200])}")
+                # baseline: the single-threaded run with the same preferences (no pool, no jitter)
+                yield Case(" ".join([f"threads_run {n} {alg} 0 0"] + toks), k=False, tag=",".join(map(str, sorted(fs))))
                 for t in tlist:
-                    toks = []
-                    if alg in ("siqs", "mpqs", "qs") and rng.random() < 0.4:
-                        toks.append(f"dbl={rng.choice([0, 1])}")
-                    if alg in ("siqs", "mpqs", "qs") and rng.random() < 0.3:
-                        toks.append(f"lf={rng.choice([10, 50, 200])}")
                     jit = rng.getrandbits(32) | 1 if rng.random() < 0.8 else 0
                     pr = None if rng.random() < 0.25 else ["release"]
                     yield Case(" ".join([f"threads_run {n} {alg} {t} {jit}"] + toks), k=False,
@@ -91,16 +94,22 @@ def oracle(case, ans):
     _stats["max_threads_seen"] = max(_stats["max_threads_seen"], len(tids))
     if len(tids) >= 2:
         _stats["multi_thread_runs"] += 1
-    if res == "failure":
-        return f"run with {case.args[2]} threads failed on a product of known primes {expected} (single-threaded runs of this size are complete)"
-    body = res[2:].strip()
-    fs = [] if body in ("-", "") else [int(x) for x in body.split(",")]
-    if fc.prod(fs) != n or fs != sorted(fs):
-        return f"invalid factorisation {fs}"
-    if case.args[1] != "ecm" and fs != expected:
-        return f"incomplete: returned {fs}, prime factorisation {expected}"
-    if case.args[1] == "ecm" and any(f not in expected for f in fs) and fc.prod(fs) != n:
-        return f"invalid factorisation {fs}"
+    key = (case.args[0], case.args[1], " ".join(case.args[4:]))
+    fs = None
+    if res != "failure":
+        body = res[2:].strip()
+        fs = [] if body in ("-", "") else [int(x) for x in body.split(",")]
+        if fc.prod(fs) != n or fs != sorted(fs) or any(f < 2 for f in fs):
+            return f"invalid factorisation {fs}"
+    complete = fs == expected
+    if case.args[2] == "0":
+        _baseline[key] = complete
+        _stats["baseline_complete"] = _stats.get("baseline_complete", 0) + (1 if complete else 0)
+        _stats["baseline_incomplete"] = _stats.get("baseline_incomplete", 0) + (0 if complete else 1)
+        return None
+    if _baseline.get(key, True) and not complete:
+        return (f"run with {case.args[2]} threads returned {res[:80]} but the single-threaded run with the same "
+                f"preferences is complete ({expected})")
     return None
 
 
